@@ -65,19 +65,20 @@ const (
 // with indefinite write blocking (issue #724). All checkpoints now use either
 // PASSIVE (non-blocking) or TRUNCATE (emergency only) modes.
 type DB struct {
-	mu        sync.RWMutex
-	execSem   *semaphore.Weighted
-	path      string        // part to database
-	metaPath  string        // Path to the database metadata.
-	db        *sql.DB       // target database
-	f         *os.File      // long-running db file descriptor
-	rtx       *sql.Tx       // long running read transaction
-	pageSize  int           // page size, in bytes
-	notify    chan struct{} // closes on WAL change
-	chkMu     sync.RWMutex  // checkpoint lock
-	opened    bool          // true if Open() was called and Close() not yet called
-	syncState syncState
-	syncDiag  diagState
+	mu          sync.RWMutex
+	execSem     *semaphore.Weighted
+	path        string        // part to database
+	metaPath    string        // Path to the database metadata.
+	db          *sql.DB       // target database
+	f           *os.File      // long-running db file descriptor
+	rtx         *sql.Tx       // long running read transaction
+	pageSize    int           // page size, in bytes
+	notify      chan struct{} // closes on WAL change
+	chkMu       sync.RWMutex  // checkpoint lock
+	opened      bool          // true if Open() was called and Close() not yet called
+	lifecycleMu sync.Mutex    // serializes Open() and Close()
+	syncState   syncState
+	syncDiag    diagState
 
 	// last file info for each level
 	maxLTXFileInfos struct {
@@ -779,6 +780,11 @@ func (db *DB) EnsureExists(ctx context.Context) error {
 
 // Open initializes the background monitoring goroutine.
 func (db *DB) Open() (err error) {
+	// Open and Close are serialized so that a close never overlaps another
+	// close or a reopen of the same object.
+	db.lifecycleMu.Lock()
+	defer db.lifecycleMu.Unlock()
+
 	db.mu.Lock()
 	if db.opened {
 		db.mu.Unlock()
@@ -835,7 +841,13 @@ func (db *DB) Open() (err error) {
 // and closes the database. If Done is set, closing it interrupts the shutdown
 // sync retry loop and cancels any in-flight sync attempt.
 func (db *DB) Close(ctx context.Context) (err error) {
-	db.cancel()
+	db.lifecycleMu.Lock()
+	defer db.lifecycleMu.Unlock()
+
+	db.mu.RLock()
+	cancel := db.cancel
+	db.mu.RUnlock()
+	cancel()
 	db.wg.Wait()
 
 	// Acquire without honoring caller cancellation: the cleanup below
@@ -871,6 +883,11 @@ func (db *DB) Close(ctx context.Context) (err error) {
 			err = e
 		}
 	}
+
+	// Wait for in-flight snapshot streams, which read the database file
+	// handle, before tearing it down.
+	db.chkMu.Lock()
+	defer db.chkMu.Unlock()
 
 	db.mu.Lock()
 	sqlDB := db.db
@@ -2800,6 +2817,7 @@ type snapshotReadPosition struct {
 	walEndOffset int64
 	db           *DB
 	closeOnce    sync.Once
+	done         chan struct{} // closed when the stream goroutine has exited
 }
 
 func (p *snapshotReadPosition) close() {
@@ -2812,8 +2830,11 @@ type snapshotReadCloser struct {
 }
 
 func (r *snapshotReadCloser) Close() error {
-	defer r.pos.close()
-	return r.PipeReader.Close()
+	err := r.PipeReader.Close()
+	// The stream goroutine keeps reading the database file until it notices
+	// the closed pipe; it releases the checkpoint lock when it exits.
+	<-r.pos.done
+	return err
 }
 
 // SnapshotReader returns the current position of the database & a reader that contains a full database snapshot.
@@ -2839,6 +2860,13 @@ func (db *DB) snapshotPosition(ctx context.Context) (*snapshotReadPosition, erro
 		return nil, err
 	}
 	defer db.execSem.Release(1)
+
+	db.mu.RLock()
+	closed := db.db == nil || db.f == nil
+	db.mu.RUnlock()
+	if closed {
+		return nil, &DBNotReadyError{Reason: "database not open"}
+	}
 
 	pageSize := db.PageSize()
 	pos, err := db.Pos()
@@ -2876,6 +2904,7 @@ func (db *DB) snapshotPosition(ctx context.Context) (*snapshotReadPosition, erro
 		pageSize:     pageSize,
 		walEndOffset: walEndOffset,
 		db:           db,
+		done:         make(chan struct{}),
 	}, nil
 }
 
@@ -2934,6 +2963,7 @@ func (db *DB) snapshotReader(ctx context.Context, pos *snapshotReadPosition) (io
 	// Execute encoding in a separate goroutine so the caller can initialize before reading.
 	pr, pw := io.Pipe()
 	go func() {
+		defer close(pos.done)
 		defer pos.close()
 
 		walFile, err := os.Open(db.WALPath())
@@ -3272,6 +3302,10 @@ func (db *DB) EnforceRetentionByTXID(ctx context.Context, level int, txID ltx.TX
 // Implements exponential backoff on repeated sync errors to prevent disk churn
 // when persistent errors (like disk full) occur. See issue #927.
 func (db *DB) monitor() {
+	db.mu.RLock()
+	ctx := db.ctx
+	db.mu.RUnlock()
+
 	ticker := time.NewTicker(db.MonitorInterval)
 	defer ticker.Stop()
 
@@ -3283,7 +3317,7 @@ func (db *DB) monitor() {
 	for {
 		// Wait for ticker or context close.
 		select {
-		case <-db.ctx.Done():
+		case <-ctx.Done():
 			return
 		case <-ticker.C:
 		}
@@ -3291,7 +3325,7 @@ func (db *DB) monitor() {
 		// If in backoff mode, wait additional time before retrying.
 		if backoff > 0 {
 			select {
-			case <-db.ctx.Done():
+			case <-ctx.Done():
 				return
 			case <-time.After(backoff):
 			}
@@ -3303,7 +3337,7 @@ func (db *DB) monitor() {
 		// end so checkpointIfNeeded() runs. A single bounded chunk per
 		// tick would cap drain throughput and starve the TruncatePageN
 		// emergency checkpoint while behind, growing the WAL unbounded.
-		if err := db.Sync(db.ctx); err != nil && !errors.Is(err, context.Canceled) {
+		if err := db.Sync(ctx); err != nil && !errors.Is(err, context.Canceled) {
 			consecutiveErrs++
 
 			// Exponential backoff: MonitorInterval -> 2x -> 4x -> ... -> max
